@@ -160,6 +160,7 @@ class _Desugar(ast.NodeTransformer):
 
     * ``for i in np.flatnonzero(M): body``  ->  ``for i in range(len(M)): if not M[i]: continue; body``
       (same iterations in the same order for a 1-d mask M; the loop then has the whole-axis shape every loop rule knows)
+    * ``for i, x in enumerate(X): body``  ->  ``for i in range(len(X)): x = X[i]; body``
     * ``i = 0; while i < N: i += 1; body``  ->  ``for i in range(1, N + 1): body``  (see _counting_while)"""
 
     def generic_visit(self, node):
@@ -173,6 +174,28 @@ class _Desugar(ast.NodeTransformer):
     def visit_For(self, node: ast.For):
         self.generic_visit(node)
         it = node.iter
+        # for i, x in enumerate(X): body  ->  for i in range(len(X)): x = X[i]; body      (X a sequence or array expression)
+        if isinstance(it, ast.Call) and isinstance(it.func, ast.Name) and it.func.id == "enumerate" and len(it.args) == 1 and not it.keywords \
+                and isinstance(node.target, ast.Tuple) and len(node.target.elts) == 2 and all(isinstance(e, ast.Name) for e in node.target.elts) \
+                and not node.orelse and isinstance(it.args[0], (ast.Name, ast.Subscript, ast.Attribute)):
+            i_, x_ = node.target.elts
+            src = it.args[0]
+            bind = ast.Assign(targets=[ast.Name(id=x_.id, ctx=ast.Store())],
+                              value=ast.Subscript(value=src, slice=ast.Name(id=i_.id, ctx=ast.Load()), ctx=ast.Load()))
+            ast.copy_location(bind, node.target)
+            for sub in ast.walk(bind):
+                if not hasattr(sub, "lineno"):
+                    ast.copy_location(sub, node.target)
+            new_iter = ast.Call(func=ast.Name(id="range", ctx=ast.Load()),
+                                args=[ast.Call(func=ast.Name(id="len", ctx=ast.Load()), args=[src], keywords=[])], keywords=[])
+            ast.copy_location(new_iter, it)
+            for sub in ast.walk(new_iter):
+                if not hasattr(sub, "lineno"):
+                    ast.copy_location(sub, it)
+            node.target = ast.copy_location(ast.Name(id=i_.id, ctx=ast.Store()), node.target)
+            node.iter = new_iter
+            node.body = [bind] + node.body
+            return node
         if isinstance(it, ast.Call) and isinstance(it.func, ast.Attribute) and it.func.attr == "flatnonzero" \
                 and isinstance(it.func.value, ast.Name) and it.func.value.id in ("np", "numpy") and len(it.args) == 1 \
                 and not it.keywords and isinstance(node.target, ast.Name) and not node.orelse:
